@@ -57,7 +57,7 @@ def And(*ts):
         return flat[0]
     conj = []
     for t in flat:
-        conj += t.conj if t.conj else [t]
+        conj += t.conj if isinstance(t.conj, list) and t.conj else [t]
     return T("(and " + " ".join(t.s for t in flat) + ")", "Bool", conj=conj)
 
 
@@ -202,6 +202,8 @@ def Quant(q, vars_, body, pats=None):
     if not vs:
         return body
     decl = " ".join(f"({v.s} {v.sort})" for v in vs)
+    if pats:
+        pats = [pat for pat in pats if not any("(ite " in p.s for p in pat)]
     if pats:
         ps = " ".join(":pattern (" + " ".join(p.s for p in pat) + ")" for pat in pats)
         return T(f"({q} ({decl}) (! {body.s} {ps}))", "Bool")
@@ -356,6 +358,9 @@ def lit_decl_S(name, value):
 SOLVERS = {
     "z3-new": lambda f, t: ["z3-new", f"-T:{t}", "-smt2", f],
     "z3": lambda f, t: ["/usr/bin/z3", f"-T:{t}", "-smt2", f],
+    # relevancy filtering off: E-matching instantiates on every ground term; decisive on the large frame/heap queries
+    "z3-new-r0": lambda f, t: ["z3-new", f"-T:{t}", "smt.relevancy=0", "-smt2", f],
+    "z3-r0": lambda f, t: ["/usr/bin/z3", f"-T:{t}", "smt.relevancy=0", "-smt2", f],
     "cvc5": lambda f, t: ["/usr/bin/cvc5", "--strings-exp", f"--tlimit={t * 1000}", f],
     "cvc5-new": lambda f, t: ["python3-vt", os.path.join(os.path.dirname(os.path.abspath(__file__)), "cvc5_new.py"), f, str(t * 1000)],
     "cvc5-fmf": lambda f, t: ["/usr/bin/cvc5", "--strings-exp", "--strings-fmf", "--produce-models", f"--tlimit={t * 1000}", f],
@@ -382,7 +387,8 @@ def run_solver(name, text, timeout):
         except OSError:
             pass
     dt = time.time() - t0
-    first = out.split("\n", 1)[0].strip() if out else ""
+    verdicts = [ln.strip() for ln in out.split("\n") if ln.strip() in ("sat", "unsat", "unknown")]
+    first = verdicts[0] if verdicts else ""
     if first in ("sat", "unsat", "unknown"):
         res = first
     elif "timeout" in out or "interrupted" in out or "resourceout" in out:
@@ -404,6 +410,8 @@ def solve(text, timeout, order=("z3-new", "z3", "cvc5"), alts=(), stagger=1.5):
         f.write(text)
     alt_paths = []
     plan = [(order[0], path)]
+    if order[0] == "z3-new" and len(order) > 1:
+        plan.append(("z3-new-r0", path))
     for k, (aname, atext) in enumerate(alts):
         if atext == text:
             continue
@@ -412,6 +420,8 @@ def solve(text, timeout, order=("z3-new", "z3", "cvc5"), alts=(), stagger=1.5):
             f.write(atext)
         alt_paths.append(ap)
         plan.append((order[0] + "/" + aname, ap))
+    if alt_paths and order[0] == "z3-new":
+        plan.append(("z3-new-r0/" + alts[0][0], alt_paths[0]))
     first_wave = len(plan)
     plan += [(n, path) for n in order[1:]]
     if alt_paths:
@@ -447,7 +457,8 @@ def solve(text, timeout, order=("z3-new", "z3", "cvc5"), alts=(), stagger=1.5):
             p = procs[n]
             if p.poll() is not None:
                 out = (p.stdout.read() or "").strip()
-                first = out.split("\n", 1)[0].strip() if out else ""
+                verdicts = [ln.strip() for ln in out.split("\n") if ln.strip() in ("sat", "unsat", "unknown")]
+                first = verdicts[0] if verdicts else ""
                 res = first if first in ("sat", "unsat", "unknown") else ("timeout" if ("timeout" in out or "interrupted" in out or "resourceout" in out) else "error")
                 if "/" in n and res == "sat":
                     res = "unknown"      # fewer hypotheses: a model means nothing
